@@ -1,0 +1,44 @@
+//go:build verif
+
+// Contracts of package cashu for the govc verifier (/verif). This file holds
+// comments only and is compiled only with the build tag `verif`.
+package cashu
+
+//@ func OverflowAddUint64
+//@   tags C02 C16
+//@   safety C06
+//@   ensures @flag r1 <==> a + b >= 18446744073709551616
+//@   ensures @sum !r1 ==> r0 == a + b
+//@   ensures @sat r1 ==> r0 == 18446744073709551615
+
+//@ func UnderflowSubUint64
+//@   tags C02
+//@   safety C06
+//@   ensures @flag r1 <==> b > a
+//@   ensures @diff !r1 ==> r0 == a - b
+//@   ensures @zero r1 ==> r0 == 0
+
+//@ func (BlindedMessages).AmountChecked
+//@   tags C02 C03
+//@   safety C06
+//@   ensures @exact err == nil ==> result == sum.bm.amount(seq(bm), len(bm))
+//@   ensures @nowrap err == nil ==> sum.bm.amount(seq(bm), len(bm)) < 18446744073709551616
+//@   loop range(bm) invariant 0 <= i && i <= len(bm) && totalAmount == sum.bm.amount(seq(bm), i)
+
+//@ func (BlindedMessages).Amount
+//@   tags C02
+//@   safety C06
+//@   ensures @wrapsum result == sum.bm.amount(seq(bm), len(bm)) % 18446744073709551616
+//@   loop range(bm) invariant 0 <= i && i <= len(bm) && totalAmount == sum.bm.amount(seq(bm), i) % 18446744073709551616
+
+//@ func (Proofs).Amount
+//@   tags C02 C14 C18
+//@   safety C06
+//@   ensures @wrapsum result == sum.proof.amount(seq(proofs), len(proofs)) % 18446744073709551616
+//@   loop range(proofs) invariant 0 <= i && i <= len(proofs) && totalAmount == sum.proof.amount(seq(proofs), i) % 18446744073709551616
+
+//@ func (BlindedSignatures).Amount
+//@   tags C02
+//@   safety C06
+//@   ensures @wrapsum result == sum.sig.amount(seq(bs), len(bs)) % 18446744073709551616
+//@   loop range(bs) invariant 0 <= i && i <= len(bs) && totalAmount == sum.sig.amount(seq(bs), i) % 18446744073709551616
